@@ -128,6 +128,7 @@ Section Proofs.
   Variables data value : Type.
   Variable evalf : Z -> data -> value.
   Variable filt : value -> value.
+  Variable filt_op : value -> value * value.
   Variable lookup : Z -> name -> name -> option data.
   Variable mk : name -> name -> key.
   Variable split : key -> option (name * name).
@@ -137,7 +138,7 @@ Section Proofs.
   (* the cache is only consulted with a positive lifetime (repaired code: fixed0 = true; or expire-cache > 0) *)
   Hypothesis Hcfg : use_cache L fixed0 = true -> 0 < L.
 
-  Notation stepf := (step data value evalf lookup mk split L fixed0).
+  Notation stepf := (step data value evalf filt_op lookup mk split L fixed0).
   Notation State := (state data value).
   Notation Event := (event data value).
 
@@ -165,10 +166,10 @@ Section Proofs.
     match ph with
     | PRead => True
     | PLookup => start <= clk
-    | PStoreGood v s => Some v = res_of k s /\ logged k s tr /\ start <= s /\ s <= clk
+    | PStoreGood v s _ => Some v = res_of k s /\ logged k s tr /\ start <= s /\ s <= clk
     | PErrLoad s => None = res_of k s /\ logged k s tr /\ start <= s /\ s <= clk
     | PErrStore e => e_res e = None /\ entry_ok clk tr k e /\ start <= e_snap e
-    | PReply res s c r => res = res_of k s /\ logged k s tr /\ s <= c /\ r <= c + L /\ start <= r /\ r <= clk /\ c <= clk
+    | PReply res s c r _ => res = res_of k s /\ logged k s tr /\ s <= c /\ r <= c + L /\ start <= r /\ r <= clk /\ c <= clk
     | PDone => True
     end.
 
@@ -249,9 +250,9 @@ Section Proofs.
     thread_ok t (evs ++ trace st) th' ->
     Forall (thread_ok t (evs ++ trace st)) extra ->
     Forall (reply_ok (evs ++ trace st)) evs ->
-    inv1 (mkState (newc ++ cache st) p (set_nth (threads st) tid th' ++ extra) (evs ++ trace st) t).
+    forall h, inv1 (mkState (newc ++ cache st) p (set_nth (threads st) tid th' ++ extra) (evs ++ trace st) t h).
   Proof.
-    intros st tid th th' newc evs extra p t [Hc Ht Hr] Hclk Hth Hcn Hgn Hnew Hth' Hex Hev.
+    intros st tid th th' newc evs extra p t [Hc Ht Hr] Hclk Hth Hcn Hgn Hnew Hth' Hex Hev h.
     constructor; cbn [cache threads trace clock].
     - apply Forall_app. split; [exact Hnew|].
       eapply Forall_impl; [|exact Hc]. intros [k e] H. cbn in *. eapply entry_ok_mono; eauto.
@@ -269,17 +270,17 @@ Section Proofs.
     Forall (fun ke => entry_ok t (evs ++ trace st) (fst ke) (snd ke)) newc ->
     thread_ok t (evs ++ trace st) th' ->
     Forall (reply_ok (evs ++ trace st)) evs ->
-    inv1 (mkState (newc ++ cache st) p (set_nth (threads st) tid th') (evs ++ trace st) t).
+    forall h, inv1 (mkState (newc ++ cache st) p (set_nth (threads st) tid th') (evs ++ trace st) t h).
   Proof.
-    intros st tid th th' newc evs p t Hinv Hclk Hth Hcn Hgn Hnew Hth' Hev.
+    intros st tid th th' newc evs p t Hinv Hclk Hth Hcn Hgn Hnew Hth' Hev h.
     rewrite <- (app_nil_r (set_nth (threads st) tid th')).
     eapply inv1_update; eauto.
   Qed.
 
   Lemma inv1_clock : forall st t, inv1 st -> clock st <= t ->
-    inv1 (mkState (cache st) (pend st) (threads st) (trace st) t).
+    forall h, inv1 (mkState (cache st) (pend st) (threads st) (trace st) t h).
   Proof.
-    intros st t [Hc Ht Hr] Hclk. constructor; cbn [cache threads trace clock].
+    intros st t [Hc Ht Hr] Hclk h. constructor; cbn [cache threads trace clock].
     - eapply Forall_impl; [|exact Hc]. intros [k e] H. exact (entry_ok_mono _ _ _ [] _ _ Hclk H).
     - eapply Forall_impl; [|exact Ht]. intros a H. exact (phase_ok_mono _ _ _ [] _ _ _ Hclk H).
     - exact Hr.
@@ -324,13 +325,12 @@ Section Proofs.
         * unfold thread_ok. cbn. lia.
     - (* PLookup *)
       destruct (split k) as [[c g]|] eqn:Es.
-      + cbv zeta.
-        pose proof (logged_here k t c g tid (trace st) Es) as Hlog.
-        eapply (inv1_upd0 st tid th _ [] [_] _ t Hinv Hclk Hth); try reflexivity; auto.
-        * unfold thread_ok, with_phase. cbn [th_c th_g th_start th_ph]. fold k.
-          destruct (lookup t c g) as [d|] eqn:El; cbn [phase_ok]; unfold res_of; rewrite Es, El;
-            (split; [reflexivity|split; [exact Hlog|split; lia]]).
-        * constructor; [exact I|constructor].
+      + pose proof (logged_here k t c g tid (trace st) Es) as Hlog.
+        destruct (lookup t c g) as [d|] eqn:El;
+          (eapply (inv1_upd0 st tid th _ [] [_] _ t Hinv Hclk Hth); try reflexivity; auto;
+           [unfold thread_ok, with_phase; cbn [th_c th_g th_start th_ph]; fold k; cbn [phase_ok];
+            unfold res_of; rewrite Es, El; (split; [reflexivity|split; [exact Hlog|split; lia]])
+           |constructor; [exact I|constructor]]).
       + eapply (inv1_upd0 st tid th _ [] [] _ t Hinv Hclk Hth); try reflexivity; auto.
         * unfold thread_ok, with_phase. cbn. fold k. unfold res_of, logged. rewrite Es. repeat split; auto; lia.
     - (* PStoreGood *)
@@ -349,7 +349,7 @@ Section Proofs.
       case_eq (use_cache L fixed0); intro Euc.
       + cbv zeta.
         assert (Hfresh : inv1 (mkState (cache st) (pend st)
-                  (set_nth (threads st) tid (with_phase value th (PErrStore (mkEntry None t s)))) (trace st) t)).
+                  (set_nth (threads st) tid (with_phase value th (PErrStore (mkEntry None t s O)))) (trace st) t (heap st))).
         { eapply (inv1_upd0 st tid th _ [] [] _ t Hinv Hclk Hth); try reflexivity; auto.
           - unfold thread_ok, with_phase. cbn. fold k. unfold entry_ok. cbn. repeat split; auto; lia. }
         destruct (find_entry value k (cache st)) as [e|] eqn:Ef; [|exact Hfresh].
@@ -377,11 +377,11 @@ Section Proofs.
       + eapply (inv1_upd0 st tid th _ [] [] _ t Hinv Hclk Hth); try reflexivity; auto;
           try (unfold thread_ok, with_phase; cbn; exact I).
       + destruct (reply_names value th res) as [[rc rg] v] eqn:Ern.
-        eapply (inv1_upd0 st tid th _ [] [_] _ t Hinv Hclk Hth); try reflexivity; auto;
+        eapply (inv1_upd0 st tid th _ [] [_; _] _ t Hinv Hclk Hth); try reflexivity; auto;
           try (unfold thread_ok, with_phase; cbn; exact I).
-        constructor; [|constructor]. cbn [reply_ok]. exists res. fold k.
+        constructor; [|constructor; [exact I|constructor]]. cbn [reply_ok]. exists res. fold k.
         split; [exact H1|]. split; [rewrite <- Ern; reflexivity|].
-        split; [apply (logged_mono _ _ _ [_]); exact H2|]. repeat split; lia.
+        split; [apply (logged_mono _ _ _ [_; _]); exact H2|]. repeat split; lia.
     - (* PDone *)
       apply inv1_clock; assumption.
   Qed.
@@ -393,7 +393,7 @@ Section Proofs.
     unfold thread_ok. cbn. exact I.
   Qed.
 
-  Notation runf := (run_from data value evalf lookup mk split L fixed0).
+  Notation runf := (run_from data value evalf filt_op lookup mk split L fixed0).
 
   Lemma run_from_inv1 : forall sched st, inv1 st -> inv1 (runf st sched).
   Proof.
@@ -409,13 +409,13 @@ Section Proofs.
     match th_ph th with PDone => negb (th_async th) | _ => false end.
 
   Definition no_reply (ev : Event) : Prop :=
-    match ev with EvReply _ _ _ _ _ _ _ _ _ _ _ => False | _ => True end.
+    match ev with EvReply _ _ _ _ _ _ _ _ _ _ _ => False | EvDeliver _ _ _ _ _ => False | _ => True end.
 
   Notation repl := (replies_of data value).
 
-  Record inv2 (reqs : list (name * name)) (st : State) : Prop := mkInv2 {
+  Record inv2 (reqs : list (name * name * bool)) (st : State) : Prop := mkInv2 {
     i_req : forall i cg, nth_error reqs i = Some cg ->
-            exists th, nth_error (threads st) i = Some th /\ (th_c th, th_g th) = cg /\ th_async th = false;
+            exists th, nth_error (threads st) i = Some th /\ (th_c th, th_g th, th_sa th) = cg /\ th_async th = false;
     i_asy : forall i th, nth_error (threads st) i = Some th -> (length reqs <= i)%nat -> th_async th = true;
     i_cnt : forall i, length (repl i (trace st)) =
                       match nth_error (threads st) i with
@@ -424,13 +424,16 @@ Section Proofs.
                       end;
     i_nam : forall tid t rc rg c g v s cr r start,
             In (EvReply tid t rc rg c g v s cr r start) (trace st) ->
-            exists th, nth_error (threads st) tid = Some th /\ th_c th = rc /\ th_g th = rg /\ th_async th = false }.
+            exists th, nth_error (threads st) tid = Some th /\ th_c th = rc /\ th_g th = rg /\ th_async th = false;
+    i_dlv : forall tid t sa v dv,
+            In (EvDeliver tid t sa v dv) (trace st) ->
+            exists th, nth_error (threads st) tid = Some th /\ th_sa th = sa /\ th_async th = false }.
 
   Lemma repl_no_reply : forall evs tr i, Forall no_reply evs -> repl i (evs ++ tr) = repl i tr.
   Proof.
     induction evs as [|ev evs IH]; intros tr i H; [reflexivity|].
     inversion H as [|x y Hx Hy]; subst. cbn [app].
-    destruct ev; cbn [no_reply] in Hx; [ | |contradiction]; cbn [replies_of]; apply IH; exact Hy.
+    destruct ev; cbn [no_reply] in Hx; [ | |contradiction|contradiction]; cbn [replies_of]; apply IH; exact Hy.
   Qed.
 
   Lemma nth_error_upd : forall (l : list (thread value)) tid th th' extra i,
@@ -450,20 +453,20 @@ Section Proofs.
 
   Lemma inv2_quiet : forall reqs st tid th th' extra c p evs t,
     inv2 reqs st -> nth_error (threads st) tid = Some th ->
-    th_c th' = th_c th -> th_g th' = th_g th -> th_async th' = th_async th ->
+    th_c th' = th_c th -> th_g th' = th_g th -> th_sa th' = th_sa th -> th_async th' = th_async th ->
     done_na th' = done_na th ->
     Forall (fun a => th_async a = true /\ done_na a = false) extra ->
     Forall no_reply evs ->
-    inv2 reqs (mkState c p (set_nth (threads st) tid th' ++ extra) (evs ++ trace st) t).
+    forall h, inv2 reqs (mkState c p (set_nth (threads st) tid th' ++ extra) (evs ++ trace st) t h).
   Proof.
-    intros reqs st tid th th' extra c p evs t [Hreq Hasy Hcnt Hnam] Hth Hc Hg Ha Hd Hex Hev.
+    intros reqs st tid th th' extra c p evs t [Hreq Hasy Hcnt Hnam Hdlv] Hth Hc Hg Hs Ha Hd Hex Hev h.
     assert (Hlt : (tid < length (threads st))%nat) by (apply nth_error_Some; congruence).
     constructor; cbn [cache threads trace clock].
     - intros i cg Hi. destruct (Hreq i cg Hi) as (th0 & H0 & H1 & H2).
       assert (Hil : (i < length (threads st))%nat) by (apply nth_error_Some; congruence).
       rewrite (nth_error_upd _ _ _ th' extra i Hth). apply Nat.ltb_lt in Hil. rewrite Hil.
       destruct (Nat.eqb_spec i tid) as [->|Hne].
-      + exists th'. rewrite Hth in H0. inversion H0; subst th0. rewrite Hc, Hg, Ha. auto.
+      + exists th'. rewrite Hth in H0. inversion H0; subst th0. rewrite ?Hc, ?Hg, ?Hs, ?Ha. auto.
       + exists th0. auto.
     - intros i a Hi Hle. rewrite (nth_error_upd _ _ _ th' extra i Hth) in Hi.
       destruct (Nat.ltb_spec i (length (threads st))) as [Hil|Hge].
@@ -485,28 +488,38 @@ Section Proofs.
         assert (Hil : (tid0 < length (threads st))%nat) by (apply nth_error_Some; congruence).
         rewrite (nth_error_upd _ _ _ th' extra tid0 Hth). apply Nat.ltb_lt in Hil. rewrite Hil.
         destruct (Nat.eqb_spec tid0 tid) as [->|Hne].
-        * exists th'. rewrite Hth in H0. inversion H0; subst th0. rewrite Hc, Hg, Ha. auto.
+        * exists th'. rewrite Hth in H0. inversion H0; subst th0. rewrite ?Hc, ?Hg, ?Hs, ?Ha. auto.
+        * exists th0. auto.
+    - intros tid0 t1 sa v dv Hin.
+      apply in_app_or in Hin. destruct Hin as [Hin|Hin].
+      + rewrite Forall_forall in Hev. apply Hev in Hin. contradiction.
+      + destruct (Hdlv _ _ _ _ _ Hin) as (th0 & H0 & H1 & H2).
+        assert (Hil : (tid0 < length (threads st))%nat) by (apply nth_error_Some; congruence).
+        rewrite (nth_error_upd _ _ _ th' extra tid0 Hth). apply Nat.ltb_lt in Hil. rewrite Hil.
+        destruct (Nat.eqb_spec tid0 tid) as [->|Hne].
+        * exists th'. rewrite Hth in H0. inversion H0; subst th0. rewrite ?Hs, ?Ha. auto.
         * exists th0. auto.
   Qed.
 
   Lemma inv2_quiet0 : forall reqs st tid th th' c p evs t,
     inv2 reqs st -> nth_error (threads st) tid = Some th ->
-    th_c th' = th_c th -> th_g th' = th_g th -> th_async th' = th_async th ->
+    th_c th' = th_c th -> th_g th' = th_g th -> th_sa th' = th_sa th -> th_async th' = th_async th ->
     done_na th' = done_na th ->
     Forall no_reply evs ->
-    inv2 reqs (mkState c p (set_nth (threads st) tid th') (evs ++ trace st) t).
+    forall h, inv2 reqs (mkState c p (set_nth (threads st) tid th') (evs ++ trace st) t h).
   Proof.
     intros. rewrite <- (app_nil_r (set_nth (threads st) tid th')). eapply inv2_quiet; eauto.
   Qed.
 
-  Lemma inv2_reply : forall reqs st tid th th' c p t rc rg v s cr r start,
+  Lemma inv2_reply : forall reqs st tid th th' c p t rc rg v s cr r start dv,
     inv2 reqs st -> nth_error (threads st) tid = Some th ->
-    th_c th' = th_c th -> th_g th' = th_g th -> th_async th' = th_async th ->
+    th_c th' = th_c th -> th_g th' = th_g th -> th_sa th' = th_sa th -> th_async th' = th_async th ->
     th_async th = false -> done_na th = false -> th_ph th' = PDone ->
-    inv2 reqs (mkState c p (set_nth (threads st) tid th')
-                       (EvReply tid t (th_c th) (th_g th) rc rg v s cr r start :: trace st) t).
+    forall h, inv2 reqs (mkState c p (set_nth (threads st) tid th')
+                       (EvReply tid t (th_c th) (th_g th) rc rg v s cr r start
+                        :: EvDeliver tid t (th_sa th) v dv :: trace st) t h).
   Proof.
-    intros reqs st tid th th' c p t rc rg v s cr r start [Hreq Hasy Hcnt Hnam] Hth Hc Hg Ha Hna Hd Hph.
+    intros reqs st tid th th' c p t rc rg v s cr r start dv [Hreq Hasy Hcnt Hnam Hdlv] Hth Hc Hg Hs Ha Hna Hd Hph h.
     assert (Hlt : (tid < length (threads st))%nat) by (apply nth_error_Some; congruence).
     assert (Hnth : forall i, nth_error (set_nth (threads st) tid th') i =
                              if Nat.eqb i tid then Some th' else nth_error (threads st) i).
@@ -516,7 +529,7 @@ Section Proofs.
     constructor; cbn [cache threads trace clock].
     - intros i cg Hi. destruct (Hreq i cg Hi) as (th0 & H0 & H1 & H2). rewrite Hnth.
       destruct (Nat.eqb_spec i tid) as [->|Hne].
-      + exists th'. rewrite Hth in H0. inversion H0; subst th0. rewrite Hc, Hg, Ha. auto.
+      + exists th'. rewrite Hth in H0. inversion H0; subst th0. rewrite ?Hc, ?Hg, ?Hs, ?Ha. auto.
       + exists th0. auto.
     - intros i a Hi Hle. rewrite Hnth in Hi. destruct (Nat.eqb_spec i tid) as [->|Hne].
       + inversion Hi; subst a. rewrite Ha. eapply Hasy; eauto.
@@ -528,15 +541,23 @@ Section Proofs.
     - intros tid0 t1 rc0 rg0 c0 g0 v0 s0 cr0 r0 start0 Hin. rewrite Hnth.
       destruct Hin as [Heq|Hin].
       + inversion Heq; subst. rewrite Nat.eqb_refl. exists th'. rewrite Ha. auto.
-      + destruct (Hnam _ _ _ _ _ _ _ _ _ _ _ Hin) as (th0 & H0 & H1 & H2 & H3).
+      + destruct Hin as [Heq|Hin]; [discriminate|].
+        destruct (Hnam _ _ _ _ _ _ _ _ _ _ _ Hin) as (th0 & H0 & H1 & H2 & H3).
         destruct (Nat.eqb_spec tid0 tid) as [->|Hne].
-        * exists th'. rewrite Hth in H0. inversion H0; subst th0. rewrite Hc, Hg, Ha. auto.
+        * exists th'. rewrite Hth in H0. inversion H0; subst th0. rewrite ?Hc, ?Hg, ?Hs, ?Ha. auto.
+        * exists th0. auto.
+    - intros tid0 t1 sa0 v0 dv0 Hin. rewrite Hnth.
+      destruct Hin as [Heq|[Heq|Hin]]; [discriminate| |].
+      + inversion Heq; subst. rewrite Nat.eqb_refl. exists th'. rewrite Hs, Ha. auto.
+      + destruct (Hdlv _ _ _ _ _ Hin) as (th0 & H0 & H1 & H2).
+        destruct (Nat.eqb_spec tid0 tid) as [->|Hne].
+        * exists th'. rewrite Hth in H0. inversion H0; subst th0. rewrite Hs, Ha. auto.
         * exists th0. auto.
   Qed.
 
   Lemma inv2_clock : forall reqs st t, inv2 reqs st ->
-    inv2 reqs (mkState (cache st) (pend st) (threads st) (trace st) t).
-  Proof. intros reqs st t [H1 H2 H3 H4]. constructor; assumption. Qed.
+    forall h, inv2 reqs (mkState (cache st) (pend st) (threads st) (trace st) t h).
+  Proof. intros reqs st t [H1 H2 H3 H4 H5] h. constructor; assumption. Qed.
 
   Ltac dn Eph := unfold done_na, with_phase; cbn [th_ph th_async]; rewrite Eph; reflexivity.
 
@@ -562,7 +583,7 @@ Section Proofs.
       + eapply (inv2_quiet0 _ st tid th _ _ _ [] t Hinv Hth); try reflexivity; [dn Eph|constructor].
     - (* PLookup *)
       destruct (split k) as [[c g]|].
-      + cbv zeta. destruct (lookup t c g) as [d|];
+      + destruct (lookup t c g) as [d|];
           (eapply (inv2_quiet0 _ st tid th _ _ _ [_] t Hinv Hth); try reflexivity; [dn Eph|repeat constructor]).
       + eapply (inv2_quiet0 _ st tid th _ _ _ [] t Hinv Hth); try reflexivity; [dn Eph|constructor].
     - (* PStoreGood *)
@@ -573,7 +594,7 @@ Section Proofs.
       destruct (use_cache L fixed0).
       + cbv zeta.
         assert (Hfresh : inv2 reqs (mkState (cache st) (pend st)
-                  (set_nth (threads st) tid (with_phase value th (PErrStore (mkEntry None t s)))) (trace st) t)).
+                  (set_nth (threads st) tid (with_phase value th (PErrStore (mkEntry None t s O)))) (trace st) t (heap st))).
         { eapply (inv2_quiet0 _ st tid th _ _ _ [] t Hinv Hth); try reflexivity; [dn Eph|constructor]. }
         destruct (find_entry value k (cache st)) as [e|]; [|exact Hfresh].
         destruct (e_res e) as [v|]; [|exact Hfresh].
@@ -594,13 +615,14 @@ Section Proofs.
   Lemma init_inv2 : forall reqs, inv2 reqs (init data value reqs).
   Proof.
     intros reqs. constructor; cbn [init cache threads trace clock].
-    - intros i cg Hi. exists (mkThread (fst cg) (snd cg) false 0 PRead).
-      split; [|split; [destruct cg; reflexivity|reflexivity]].
+    - intros i cg Hi. exists (mkThread (fst (fst cg)) (snd (fst cg)) false (snd cg) 0 PRead).
+      split; [|split; [destruct cg as [[? ?] ?]; reflexivity|reflexivity]].
       rewrite nth_error_map, Hi. reflexivity.
-    - intros i th Hi Hle. assert (Hn : nth_error (map (fun cg : name * name => mkThread (value:=value) (fst cg) (snd cg) false 0 PRead) reqs) i = None)
-        by (apply nth_error_None; rewrite map_length; exact Hle). congruence.
+    - intros i th Hi Hle. rewrite nth_error_map in Hi.
+      assert (Hn : nth_error reqs i = None) by (apply nth_error_None; exact Hle). rewrite Hn in Hi. discriminate.
     - intros i. cbn. rewrite nth_error_map. destruct (nth_error reqs i); reflexivity.
     - intros tid t rc rg c g v s cr r start [].
+    - intros tid t sa v dv [].
   Qed.
 
   Lemma run_from_inv2 : forall reqs sched st, inv2 reqs st -> inv2 reqs (runf st sched).
@@ -615,8 +637,8 @@ Section Proofs.
 
   Definition fuel (ph : phase value) : nat :=
     match ph with
-    | PRead => 5 | PLookup => 4 | PErrLoad _ => 3 | PStoreGood _ _ => 2 | PErrStore _ => 2
-    | PReply _ _ _ _ => 1 | PDone => 0
+    | PRead => 5 | PLookup => 4 | PErrLoad _ => 3 | PStoreGood _ _ _ => 2 | PErrStore _ => 2
+    | PReply _ _ _ _ _ => 1 | PDone => 0
     end.
 
   Definition fuel_at (st : State) (i : nat) : nat :=
@@ -707,7 +729,7 @@ Section Proofs.
   (* The theorems                                                                                  *)
   (* ------------------------------------------------------------------------------------------ *)
 
-  Notation runr := (run data value evalf lookup mk split L fixed0).
+  Notation runr := (run data value evalf filt_op lookup mk split L fixed0).
 
   (* every request is answered at most once in every schedule, and exactly once as soon as its goroutine has been
      scheduled five times (no step of the request can block: storage answers); nothing else is ever answered *)
@@ -740,7 +762,7 @@ Section Proofs.
      fetch is in the trace, created at cr >= s, still valid (r <= cr + L) at a moment r within the request *)
   Theorem reply_sound : forall reqs sched tid t rc rg c g v s cr r start,
     In (EvReply tid t rc rg c g v s cr r start) (trace (runr reqs sched)) ->
-    nth_error reqs tid = Some (rc, rg)
+    (exists sa, nth_error reqs tid = Some (rc, rg, sa))
     /\ (c, g, v) = names_of rc rg (res_of (mk rc rg) s)
     /\ logged (mk rc rg) s (trace (runr reqs sched))
     /\ s <= cr /\ r <= cr + L /\ start <= r /\ r <= t /\ cr <= t.
@@ -754,7 +776,7 @@ Section Proofs.
       destruct (Nat.lt_ge_cases tid (length reqs)) as [Hlt|Hge].
       + destruct (nth_error reqs tid) as [cg|] eqn:Hr; [|apply nth_error_None in Hr; lia].
         destruct (i_req _ _ Hinv2 tid cg Hr) as (th0 & Hth0 & Hcg & _).
-        rewrite Hth in Hth0. inversion Hth0; subst th0. rewrite <- Hcg, Hc, Hg. reflexivity.
+        rewrite Hth in Hth0. inversion Hth0; subst th0. exists (th_sa th). rewrite <- Hcg, Hc, Hg. reflexivity.
       + pose proof (i_asy _ _ Hinv2 tid th Hth Hge). congruence.
     - pose proof (i_trace _ Hinv1) as Htr. rewrite Forall_forall in Htr. specialize (Htr _ Hin).
       cbn [reply_ok] in Htr. destruct Htr as (res & -> & H2 & H3 & H4 & H5 & H6 & H7 & H8). tauto.
@@ -764,7 +786,7 @@ Section Proofs.
   Theorem reply_meaning : forall reqs sched tid t rc rg c g v s cr r start,
     In (EvReply tid t rc rg c g v s cr r start) (trace (runr reqs sched)) ->
     split (mk rc rg) = Some (rc, rg) ->
-    nth_error reqs tid = Some (rc, rg)
+    (exists sa, nth_error reqs tid = Some (rc, rg, sa))
     /\ c = rc /\ g = rg
     /\ v = option_map (evalf s) (lookup s rc rg)
     /\ (exists tid', In (EvLookup tid' s rc rg (lookup s rc rg)) (trace (runr reqs sched)))
@@ -775,6 +797,197 @@ Section Proofs.
     unfold res_of, logged in *. rewrite Hsp in *.
     split; [exact H1|].
     destruct (lookup s rc rg) as [d|]; cbn [names_of option_map] in *; inversion H2; subst; repeat split; tauto.
+  Qed.
+
+  (* ------------------------------------------------------------------------------------------ *)
+  (* The object heap: as long as the filtered view copies, every cached object stays what            *)
+  (* evaluateConsumerStatus made it, and every requester is handed the view of exactly that          *)
+  (* ------------------------------------------------------------------------------------------ *)
+
+  Definition heap_ok (h : list value) (res : option (cval value)) (a : nat) : Prop :=
+    match res with None => True | Some (_, _, v) => nth_error h a = Some v end.
+
+  Definition th_heap_ok (h : list value) (th : thread value) : Prop :=
+    match th_ph th with
+    | PStoreGood v _ a => heap_ok h (Some v) a
+    | PErrStore e => heap_ok h (e_res e) (e_addr e)
+    | PReply res _ _ _ a => heap_ok h res a
+    | _ => True
+    end.
+
+  Definition deliver_ok (tr : list Event) (ev : Event) : Prop :=
+    match ev with
+    | EvDeliver tid t sa v dv =>
+        dv = option_map (view value filt sa) v
+        /\ exists rc rg c g s cr r start, In (EvReply tid t rc rg c g v s cr r start) tr
+    | _ => True
+    end.
+
+  Lemma deliver_ok_mono : forall tr evs ev, deliver_ok tr ev -> deliver_ok (evs ++ tr) ev.
+  Proof.
+    intros tr evs ev H. destruct ev; cbn [deliver_ok] in *; auto.
+    destruct H as (H1 & rc & rg & c & g & s & cr & r & start & H2). split; [exact H1|].
+    exists rc, rg, c, g, s, cr, r, start. apply in_or_app. right. exact H2.
+  Qed.
+
+  Record inv3 (st : State) : Prop := mkInv3 {
+    h_cache : Forall (fun ke => heap_ok (heap st) (e_res (snd ke)) (e_addr (snd ke))) (cache st);
+    h_threads : Forall (th_heap_ok (heap st)) (threads st);
+    h_trace : Forall (deliver_ok (trace st)) (trace st) }.
+
+  Lemma heap_ok_ext : forall h ext res a, heap_ok h res a -> heap_ok (h ++ ext) res a.
+  Proof.
+    intros h ext [[[c g] v]|] a H; cbn [heap_ok] in *; auto.
+    rewrite nth_error_app1; auto. apply nth_error_Some. congruence.
+  Qed.
+
+  Lemma th_heap_ok_ext : forall h ext th, th_heap_ok h th -> th_heap_ok (h ++ ext) th.
+  Proof. intros h ext th H. unfold th_heap_ok in *. destruct (th_ph th); auto using heap_ok_ext. Qed.
+
+  Lemma inv3_update : forall st tid th' newc evs extra ext p t,
+    inv3 st ->
+    Forall (fun ke => heap_ok (heap st ++ ext) (e_res (snd ke)) (e_addr (snd ke))) newc ->
+    th_heap_ok (heap st ++ ext) th' ->
+    Forall (th_heap_ok (heap st ++ ext)) extra ->
+    Forall (deliver_ok (evs ++ trace st)) evs ->
+    inv3 (mkState (newc ++ cache st) p (set_nth (threads st) tid th' ++ extra) (evs ++ trace st) t (heap st ++ ext)).
+  Proof.
+    intros st tid th' newc evs extra ext p t [Hc Ht Hr] Hnew Hth' Hex Hev.
+    constructor; cbn [cache threads trace heap].
+    - apply Forall_app. split; [exact Hnew|]. eapply Forall_impl; [|exact Hc]. intros ke H. apply heap_ok_ext. exact H.
+    - apply Forall_app. split; [|exact Hex]. apply Forall_set_nth; [|exact Hth'].
+      eapply Forall_impl; [|exact Ht]. intros th H. apply th_heap_ok_ext. exact H.
+    - apply Forall_app. split; [exact Hev|]. eapply Forall_impl; [|exact Hr]. intros ev H. apply deliver_ok_mono. exact H.
+  Qed.
+
+  Lemma inv3_upd0 : forall st tid th' newc evs p t,
+    inv3 st ->
+    Forall (fun ke => heap_ok (heap st) (e_res (snd ke)) (e_addr (snd ke))) newc ->
+    th_heap_ok (heap st) th' ->
+    Forall (deliver_ok (evs ++ trace st)) evs ->
+    inv3 (mkState (newc ++ cache st) p (set_nth (threads st) tid th') (evs ++ trace st) t (heap st)).
+  Proof.
+    intros st tid th' newc evs p t Hinv Hnew Hth' Hev.
+    pose proof (inv3_update st tid th' newc evs [] [] p t Hinv) as H.
+    rewrite !app_nil_r in H. apply H; auto.
+  Qed.
+
+  Lemma inv3_clock : forall st t, inv3 st -> inv3 (mkState (cache st) (pend st) (threads st) (trace st) t (heap st)).
+  Proof. intros st t [H1 H2 H3]. constructor; assumption. Qed.
+
+  Lemma find_entry_heap_ok : forall h k m e,
+    Forall (fun ke : key * entry value => heap_ok h (e_res (snd ke)) (e_addr (snd ke))) m ->
+    find_entry value k m = Some e -> heap_ok h (e_res e) (e_addr e).
+  Proof.
+    induction m as [|[k' e'] m IH]; intros e Hm Hf; cbn [find_entry] in Hf; [discriminate|].
+    inversion Hm as [|x y Hx Hy]; subst. destruct (bytes_eqb k k'); [inversion Hf; subst; exact Hx|auto].
+  Qed.
+
+  Definition res_val (res : option (cval value)) : option value :=
+    match res with None => None | Some (_, _, v) => Some v end.
+
+  Lemma reply_names_val : forall th res, snd (reply_names value th res) = res_val res.
+  Proof. intros th [[[c g] v]|]; reflexivity. Qed.
+
+  (* the code's filtered view copies *)
+  Hypothesis Hpure : forall v, filt_op v = (v, filt v).
+
+  Lemma deliver_pure : forall h sa res a, heap_ok h res a ->
+    deliver value filt_op h sa res a = (h, option_map (view value filt sa) (res_val res)).
+  Proof.
+    intros h sa [[[c g] v]|] a H; cbn [deliver heap_ok res_val option_map] in *; [|reflexivity].
+    assert (Hn : nth a h v = v) by (apply nth_error_nth; exact H). rewrite Hn.
+    destruct sa; cbn [view]; [reflexivity|]. rewrite Hpure. cbn [fst snd].
+    rewrite (set_nth_same _ _ _ _ H). reflexivity.
+  Qed.
+
+  Lemma step_inv3 : forall st tid t0, inv3 st -> inv3 (stepf st tid t0).
+  Proof.
+    clear HL Hcfg. intros st tid t0 Hinv. unfold step.
+    set (t := Z.max (clock st) t0).
+    destruct (nth_error (threads st) tid) as [th|] eqn:Hth; [|apply inv3_clock; assumption].
+    assert (Hph : th_heap_ok (heap st) th) by (eapply nth_error_Forall; [apply (h_threads _ Hinv)|exact Hth]).
+    unfold th_heap_ok in Hph.
+    set (k := mk (th_c th) (th_g th)) in *.
+    destruct (th_ph th) eqn:Eph.
+    - (* PRead *)
+      destruct (use_cache L fixed0); [|apply (inv3_upd0 st tid _ [] []); auto; exact I].
+      destruct (find_entry value k (cache st)) as [e|] eqn:Ef; [|apply (inv3_upd0 st tid _ [] []); auto; exact I].
+      pose proof (find_entry_heap_ok _ _ _ _ (h_cache _ Hinv) Ef) as He.
+      destruct (expired value L e t); [apply (inv3_upd0 st tid _ [] []); auto; exact I|].
+      destruct (e_res e) as [v|] eqn:Er; [apply (inv3_upd0 st tid _ [] []); auto; exact He|].
+      destruct (is_pending k (pend st)); [apply (inv3_upd0 st tid _ [] []); auto; exact I|].
+      rewrite <- (app_nil_r (heap st)). apply (inv3_update st tid _ [] [] [_] []); auto; try exact I;
+        try (constructor; [exact I|constructor]).
+    - (* PLookup *)
+      destruct (split k) as [[c g]|]; [|apply (inv3_upd0 st tid _ [] []); auto; exact I].
+      destruct (lookup t c g) as [d|].
+      + rewrite <- (app_nil_r (set_nth (threads st) tid _)).
+        apply (inv3_update st tid _ [] [_] [] [_]); auto; try (constructor; [exact I|constructor]).
+        unfold th_heap_ok, with_phase. cbn [th_ph heap_ok].
+        rewrite nth_error_app2 by lia. rewrite Nat.sub_diag. reflexivity.
+      + apply (inv3_upd0 st tid _ [] [_]); auto; try exact I; try (constructor; [exact I|constructor]).
+    - (* PStoreGood *)
+      destruct (use_cache L fixed0).
+      + apply (inv3_upd0 st tid _ [_] [_]); auto; try (constructor; [exact I|constructor]);
+          try (constructor; [exact Hph|constructor]).
+      + apply (inv3_upd0 st tid _ [] []); auto.
+    - (* PErrLoad *)
+      destruct (use_cache L fixed0); [|apply (inv3_upd0 st tid _ [] []); auto; exact I].
+      cbv zeta.
+      assert (Hfresh : inv3 (mkState (cache st) (pend st)
+                (set_nth (threads st) tid (with_phase value th (PErrStore (mkEntry None t s O)))) (trace st) t (heap st)))
+        by (apply (inv3_upd0 st tid _ [] []); auto; exact I).
+      destruct (find_entry value k (cache st)) as [e|] eqn:Ef; [|exact Hfresh].
+      pose proof (find_entry_heap_ok _ _ _ _ (h_cache _ Hinv) Ef) as He.
+      destruct (e_res e) as [v|] eqn:Er; [|exact Hfresh].
+      destruct (expired value L e t); [exact Hfresh|].
+      apply (inv3_upd0 st tid _ [] []); auto; try exact He.
+    - (* PErrStore *)
+      apply (inv3_upd0 st tid _ [_] [_]); auto; try exact I; try (constructor; [exact I|constructor]);
+        try (constructor; [exact Hph|constructor]).
+    - (* PReply *)
+      destruct (th_async th); [apply (inv3_upd0 st tid _ [] []); auto; exact I|].
+      rewrite (deliver_pure _ (th_sa th) res a Hph). cbn [fst snd].
+      pose proof (reply_names_val th res) as Hv.
+      destruct (reply_names value th res) as [[rc rg] v]. cbn [snd] in Hv. subst v.
+      apply (inv3_upd0 st tid _ [] [_; _]); auto; try exact I.
+      constructor; [exact I|constructor; [|constructor]]. split; [reflexivity|]. repeat eexists. left. reflexivity.
+    - apply inv3_clock; assumption.
+  Qed.
+
+  Lemma init_inv3 : forall reqs, inv3 (init data value reqs).
+  Proof.
+    intros reqs. constructor; cbn [init cache threads trace heap]; auto.
+    apply Forall_forall. intros th Hin. apply in_map_iff in Hin. destruct Hin as (q & <- & _). exact I.
+  Qed.
+
+  Lemma run_from_inv3 : forall sched st, inv3 st -> inv3 (runf st sched).
+  Proof.
+    induction sched as [|x sched IH]; intros st H; cbn [run_from fold_left]; auto.
+    apply IH. apply step_inv3. exact H.
+  Qed.
+
+  (* every requester is handed the view it asked for of exactly the status Query returned to it (the value of the
+     EvReply event of the same step), whatever was served -- filtered or not -- to whom before, and every object in
+     the cache is still what evaluateConsumerStatus made it *)
+  Theorem delivered_is_view : forall reqs sched tid t sa v dv,
+    In (EvDeliver tid t sa v dv) (trace (runr reqs sched)) ->
+    dv = option_map (view value filt sa) v
+    /\ (exists rc rg c g s cr r start, In (EvReply tid t rc rg c g v s cr r start) (trace (runr reqs sched)))
+    /\ (exists rc rg, nth_error reqs tid = Some (rc, rg, sa)).
+  Proof.
+    intros reqs sched tid t sa v dv Hin. unfold run in *.
+    pose proof (h_trace _ (run_from_inv3 sched _ (init_inv3 reqs))) as H.
+    pose proof (run_from_inv2 reqs sched _ (init_inv2 reqs)) as Hinv2.
+    set (st := runf (init data value reqs) sched) in *.
+    rewrite Forall_forall in H. destruct (H _ Hin) as [H1 H2]. split; [exact H1|split; [exact H2|]].
+    destruct (i_dlv _ _ Hinv2 _ _ _ _ _ Hin) as (th & Hth & Hs & Ha).
+    destruct (Nat.lt_ge_cases tid (length reqs)) as [Hlt|Hge].
+    - destruct (nth_error reqs tid) as [[[rc rg] sa']|] eqn:Hr; [|apply nth_error_None in Hr; lia].
+      destruct (i_req _ _ Hinv2 tid _ Hr) as (th0 & Hth0 & Hcg & _).
+      rewrite Hth in Hth0. inversion Hth0; subst th0. inversion Hcg; subst. exists (th_c th), (th_g th). reflexivity.
+    - pose proof (i_asy _ _ Hinv2 tid th Hth Hge). congruence.
   Qed.
 End Proofs.
 
@@ -797,7 +1010,7 @@ Section Statements.
   Variable L : Z.
   Variable fixed0 : bool.
 
-  Notation tr_of reqs sched := (trace (run data value evalf lookup mk_key split_key L fixed0 reqs sched)).
+  Notation tr_of reqs sched := (trace (run data value evalf (pure_op filt) lookup mk_key split_key L fixed0 reqs sched)).
   Notation repl := (replies_of data value).
 
   Theorem one_reply_named : forall reqs sched i,
@@ -807,12 +1020,12 @@ Section Statements.
     /\ ((length reqs <= i)%nat -> repl i (tr_of reqs sched) = [])
     /\ (forall t rc rg c g v s cr r start,
           In (EvReply i t rc rg c g v s cr r start) (tr_of reqs sched) ->
-          nth_error reqs i = Some (rc, rg) /\ c = rc /\ g = rg).
+          (exists sa, nth_error reqs i = Some (rc, rg, sa)) /\ c = rc /\ g = rg).
   Proof.
     intros reqs sched i [HL Hc].
-    destruct (one_reply data value evalf lookup mk_key split_key L fixed0 reqs sched i) as (H1 & H2 & H3).
+    destruct (one_reply data value evalf (pure_op filt) lookup mk_key split_key L fixed0 reqs sched i) as (H1 & H2 & H3).
     repeat split; auto;
-      destruct (reply_meaning data value evalf lookup mk_key split_key L fixed0 HL Hc _ _ _ _ _ _ _ _ _ _ _ _ _ H
+      destruct (reply_meaning data value evalf (pure_op filt) lookup mk_key split_key L fixed0 HL Hc _ _ _ _ _ _ _ _ _ _ _ _ _ H
                               (split_mk_key rc rg)) as (Ha & Hb & Hd & _); assumption.
   Qed.
 
@@ -824,9 +1037,21 @@ Section Statements.
     /\ s <= cr /\ cr <= t /\ start <= r /\ r <= t /\ r - s <= L + (cr - s).
   Proof.
     intros reqs sched i t rc rg c g v s cr r start [HL Hc] Hin.
-    destruct (reply_meaning data value evalf lookup mk_key split_key L fixed0 HL Hc _ _ _ _ _ _ _ _ _ _ _ _ _ Hin
+    destruct (reply_meaning data value evalf (pure_op filt) lookup mk_key split_key L fixed0 HL Hc _ _ _ _ _ _ _ _ _ _ _ _ _ Hin
                             (split_mk_key rc rg)) as (_ & _ & _ & Hv & Hl & H1 & H2 & H3 & H4 & H5).
     repeat split; auto; lia.
+  Qed.
+
+  (* the reading the observation oracle enforces: a request issued at qt (before its first step) whose reply came from a
+     fetch evaluated within slack (fetch to store) reflects storage no older than L + slack at the time of the request *)
+  Theorem delivery_age_bound : forall reqs sched i t rc rg c g v s cr r start qt slack,
+    cfg_ok L fixed0 ->
+    In (EvReply i t rc rg c g v s cr r start) (tr_of reqs sched) ->
+    qt <= start -> cr - s <= slack ->
+    qt - s <= L + slack /\ s <= t.
+  Proof.
+    intros reqs sched i t rc rg c g v s cr r start qt slack Hcfg Hin Hq Hs.
+    destruct (staleness_bound _ _ _ _ _ _ _ _ _ _ _ _ _ Hcfg Hin) as (_ & _ & H1 & H2 & H3 & H4 & H5). lia.
   Qed.
 
   Theorem notfound_iff : forall reqs sched i t rc rg c g v s cr r start,
@@ -849,22 +1074,29 @@ Section Statements.
     /\ (c', g') = (rc', rg') /\ v' = option_map (evalf s') (lookup s' rc' rg').
   Proof.
     intros reqs sched i t rc rg c g v s cr r start j t' rc' rg' c' g' v' s' cr' r' start' [HL Hc] H1 H2 Hne.
-    destruct (reply_meaning data value evalf lookup mk_key split_key L fixed0 HL Hc _ _ _ _ _ _ _ _ _ _ _ _ _ H1
+    destruct (reply_meaning data value evalf (pure_op filt) lookup mk_key split_key L fixed0 HL Hc _ _ _ _ _ _ _ _ _ _ _ _ _ H1
                             (split_mk_key rc rg)) as (_ & -> & -> & Hv & _).
-    destruct (reply_meaning data value evalf lookup mk_key split_key L fixed0 HL Hc _ _ _ _ _ _ _ _ _ _ _ _ _ H2
+    destruct (reply_meaning data value evalf (pure_op filt) lookup mk_key split_key L fixed0 HL Hc _ _ _ _ _ _ _ _ _ _ _ _ _ H2
                             (split_mk_key rc' rg')) as (_ & -> & -> & Hv' & _).
     repeat split; auto. intro Hk. apply key_injective in Hk. destruct Hk; subst. apply Hne. reflexivity.
   Qed.
 
-  (* the view a request asks for is applied to the requester's copy only: which requests were filtered has no
-     influence on any event (times, fetches, raw results), hence none on what any request is delivered *)
-  Theorem filtered_does_not_disturb : forall (reqs reqs' : list (name * name * bool)) sched,
-    map fst reqs = map fst reqs' ->
-    tr_of (map fst reqs) sched = tr_of (map fst reqs') sched
-    /\ (forall i sa, nth_error (map snd reqs) i = Some sa -> nth_error (map snd reqs') i = Some sa ->
-          map (delivered data value filt sa) (repl i (tr_of (map fst reqs) sched))
-          = map (delivered data value filt sa) (repl i (tr_of (map fst reqs') sched))).
-  Proof. intros reqs reqs' sched H. rewrite H. split; [reflexivity|intros; reflexivity]. Qed.
+  (* serving a filtered view never changes what later requests see: in every schedule every requester -- whoever was
+     served what before, filtered or not -- is handed exactly the view it asked for (sa is its own ShowAll flag) of the
+     status v that Query returned to it (the v of its EvReply event, which staleness_bound / notfound_iff describe);
+     in particular a later full view is the untouched evaluation.  NOT by construction: the full view hands out the
+     cached object itself and the filtered view is an operation on that shared object (Cache.deliver on the heap); this
+     is the statement for the code's operation pure_op filt, which copies.  See filtered_aliasing_refuted. *)
+  Theorem filtered_does_not_disturb : forall reqs sched i t sa v dv,
+    In (EvDeliver i t sa v dv) (tr_of reqs sched) ->
+    dv = option_map (view value filt sa) v
+    /\ (exists rc rg c g s cr r start, In (EvReply i t rc rg c g v s cr r start) (tr_of reqs sched))
+    /\ (exists rc rg, nth_error reqs i = Some (rc, rg, sa)).
+  Proof.
+    intros reqs sched i t sa v dv Hin.
+    exact (delivered_is_view data value evalf filt (pure_op filt) lookup mk_key split_key L fixed0
+                             (fun v => eq_refl) reqs sched i t sa v dv Hin).
+  Qed.
 End Statements.
 
 (* ---- the unrepaired code (documentation of the two defects repaired in /repo) ---- *)
@@ -875,11 +1107,11 @@ Definition wit_lookup1 (t : Z) (c g : name) : option Z :=
 (* old key: the request for cluster "a b", group "c" is answered with cluster "a", group "b c" and that group's data *)
 Theorem names_shared_old_refuted :
   exists reqs sched,
-    hd_error (trace (run Z Z (fun _ d => d) wit_lookup1 mk_key_old split_key_old 10 true reqs sched))
+    hd_error (trace (run Z Z (fun _ d => d) (pure_op (fun v => v)) wit_lookup1 mk_key_old split_key_old 10 true reqs sched))
     = Some (EvReply 0 4 [97; 32; 98] [99] [97] [98; 32; 99] (Some 7) 2 3 3 1)
     /\ wit_lookup1 2 [97; 32; 98] [99] = None.
 Proof.
-  exists [([97; 32; 98], [99])], [(0%nat, 1); (0%nat, 2); (0%nat, 3); (0%nat, 4)]. split; vm_compute; reflexivity.
+  exists [([97; 32; 98], [99], true)], [(0%nat, 1); (0%nat, 2); (0%nat, 3); (0%nat, 4)]. split; vm_compute; reflexivity.
 Qed.
 
 Definition wit_lookup2 (t : Z) (c g : name) : option Z := if t <? 100 then Some 7 else None.
@@ -887,13 +1119,37 @@ Definition wit_lookup2 (t : Z) (c g : name) : option Z := if t <? 100 then Some 
 (* expire-cache = 0 before the repair (fixed0 = false): a result fetched at 2 is served at 1000, lifetime 0 *)
 Theorem zero_lifetime_old_refuted :
   exists reqs sched,
-    hd_error (trace (run Z Z (fun _ d => d) wit_lookup2 mk_key split_key 0 false reqs sched))
+    hd_error (trace (run Z Z (fun _ d => d) (pure_op (fun v => v)) wit_lookup2 mk_key split_key 0 false reqs sched))
     = Some (EvReply 1 1001 [97] [103] [97] [103] (Some 7) 2 3 1000 1000)
     /\ wit_lookup2 1000 [97] [103] = None.
 Proof.
-  exists [([97], [103]); ([97], [103])],
+  exists [([97], [103], true); ([97], [103], true)],
          [(0%nat, 1); (0%nat, 2); (0%nat, 3); (0%nat, 4); (1%nat, 1000); (1%nat, 1001); (1%nat, 1002); (1%nat, 1003)].
   split; vm_compute; reflexivity.
+Qed.
+
+(* ---- what "reply objects unchanged afterwards" in the probe guards against ---- *)
+
+(* statuses as lists of partition statuses; the problems-only view keeps those above 1 (OK) *)
+Definition wit_filt (v : list Z) : list Z := filter (fun x => 1 <? x) v.
+(* a filtered view built in place (status.Partitions = cachedStatus.Partitions[:0]; append ...): the cached object is
+   left holding the filtered list *)
+Definition wit_alias_op (v : list Z) : list Z * list Z := (wit_filt v, wit_filt v).
+Definition wit_lookup3 (t : Z) (c g : name) : option (list Z) := Some [1; 3].
+
+(* with the aliasing operation, request 0 (filtered) is served, then request 1 (full view, same group, served from the
+   cache): Query returns the evaluation [1; 3] to it, but the object it is handed holds [3] *)
+Theorem filtered_aliasing_refuted :
+  exists reqs sched,
+    nth_error (trace (run (list Z) (list Z) (fun _ d => d) wit_alias_op wit_lookup3 mk_key split_key 10 true reqs sched)) 1
+    = Some (EvDeliver 1 6 true (Some [1; 3]) (Some [3]))
+    /\ Some [3] <> option_map (view (list Z) wit_filt true) (Some [1; 3])
+    /\ nth_error (trace (run (list Z) (list Z) (fun _ d => d) (pure_op wit_filt) wit_lookup3 mk_key split_key 10 true reqs sched)) 1
+       = Some (EvDeliver 1 6 true (Some [1; 3]) (Some [1; 3])).
+Proof.
+  exists [([97], [103], false); ([97], [103], true)],
+         [(0%nat, 1); (0%nat, 2); (0%nat, 3); (0%nat, 4); (1%nat, 5); (1%nat, 6)].
+  split; [vm_compute; reflexivity|]. split; [vm_compute; discriminate|vm_compute; reflexivity].
 Qed.
 
 (* ---------------------------------------------------------------------------------------------- *)
@@ -946,7 +1202,7 @@ Section Oracle.
 
   Theorem check_obs_sound : forall (qs : list oreq) sched slack,
     cfg_ok L fixed0 ->
-    let tr := trace (run data value evalf lookup mk_key split_key L fixed0 (map (fun q => (q_c q, q_g q)) qs) sched) in
+    let tr := trace (run data value evalf (pure_op filt) lookup mk_key split_key L fixed0 (map (fun q => (q_c q, q_g q, q_sa q)) qs) sched) in
     (forall i, (i < length qs)%nat -> (5 <= occ i sched)%nat) ->
     (forall i t rc rg c g v s cr r start q,
         In (EvReply i t rc rg c g v s cr r start) tr -> nth_error qs i = Some q ->
@@ -961,16 +1217,16 @@ Section Oracle.
     { induction qs' as [|q qs' IH]; intros i0 Hnth; cbn [check_from]; constructor.
       - assert (Hq : nth_error qs i0 = Some q) by (rewrite <- (Nat.add_0_r i0); apply Hnth; reflexivity).
         assert (Hlt : (i0 < length qs)%nat) by (apply nth_error_Some; congruence).
-        set (reqs := map (fun q => (q_c q, q_g q)) qs) in *.
-        destruct (one_reply_named data value evalf lookup L fixed0 reqs sched i0 Hcfg) as (_ & Hone & _ & Hnam).
+        set (reqs := map (fun q => (q_c q, q_g q, q_sa q)) qs) in *.
+        destruct (one_reply_named data value evalf filt lookup L fixed0 reqs sched i0 Hcfg) as (_ & Hone & _ & Hnam).
         fold tr in Hone, Hnam.
         assert (Hlen : length (replies_of data value i0 tr) = 1%nat).
         { apply Hone; [unfold reqs; rewrite map_length; exact Hlt|apply Hsched; exact Hlt]. }
         destruct (replies_of data value i0 tr) as [|ev [|ev' rest]] eqn:Er; try discriminate.
         destruct (replies_of_in tr i0 ev) as (Hin & t & rc & rg & c & g & v & s & cr & r & start & ->);
           [rewrite Er; left; reflexivity|].
-        destruct (Hnam _ _ _ _ _ _ _ _ _ _ Hin) as (Hreq & -> & ->).
-        destruct (staleness_bound data value evalf lookup L fixed0 reqs sched _ _ _ _ _ _ _ _ _ _ _ Hcfg Hin)
+        destruct (Hnam _ _ _ _ _ _ _ _ _ _ Hin) as ((sa0 & Hreq) & -> & ->).
+        destruct (staleness_bound data value evalf filt lookup L fixed0 reqs sched _ _ _ _ _ _ _ _ _ _ _ Hcfg Hin)
           as (Hv & (tid' & Hlk) & H1 & H2 & H3 & H4 & H5).
         destruct (Hdelay _ _ _ _ _ _ _ _ _ _ _ q Hin Hq) as (Hd1 & Hd2).
         assert (Hnames : rc = q_c q /\ rg = q_g q).
